@@ -288,6 +288,16 @@ impl<'b> Div<&'b Octet> for &Octet {
     }
 }
 
+#[cfg(raptorq_verif)]
+pub fn verif_oct_exp() -> &'static [u8; 510] {
+    &OCT_EXP
+}
+
+#[cfg(raptorq_verif)]
+pub fn verif_oct_log() -> &'static [u8; 256] {
+    &OCT_LOG
+}
+
 #[cfg(test)]
 mod tests {
     use rand::Rng;
